@@ -733,6 +733,7 @@ Lemma nvar_assemble_id pol size next attrs guid gidx name type off nextoff datao
   size = 10 + zlen gp + zlen content -> size < 2 ^ 16 ->
   nvar_assemble enc16 pol v content true = Ok v.
 Proof.
+  clear codec_rt codec_nz.
   intros v Vt W3 Hn G Hd Hsz Hlt. subst v.
   rewrite nvar_assemble_unfold.
   unfold is_valid. cbn [v_type v_nextoff v_off v_size v_attrs v_guid v_gidx v_name v_dataoff v_ext v_sub].
@@ -758,6 +759,7 @@ Lemma asm_nvar_id pol d' size next attrs guid gidx name type off nextoff dataoff
   size = 10 + zlen gp + zlen content -> size < 2 ^ 16 ->
   asm_nvar pol d' v = Ok v.
 Proof.
+  clear codec_rt codec_nz.
   intros v Vt W3 Hn G Hd Hsz Hlt. subst v.
   unfold asm_nvar. cbn [v_sub bind set_sub].
   unfold is_valid. cbn [v_type]. rewrite Vt.
